@@ -4,7 +4,7 @@ cd /verif
 ALL="C01 C02 C03 C04 C05 C06 C07 C08 C09 C10 C11 C12 C13 C14 C15 C16 C17 C18 C19 C20"
 for f in "$@"; do
   id=$(basename $f .diff)
-  t=$(mktemp -d /tmp/bn.XXXXXX); mkdir -p $t/src; cp -r /repo/src/nanite $t/src/; cp -r /repo/docs $t/ 2>/dev/null
+  t=$(mktemp -d /tmp/bn.XXXXXX); mkdir -p $t/src; cp -r /repo/src/nanite $t/src/; cp -r /repo/docs $t/ 2>/dev/null; mkdir -p $t/tests; cp /repo/tests/*.py $t/tests/ 2>/dev/null
   if ! patch -s -p1 -d $t < $f >/dev/null 2>&1; then echo "$id: PATCH-DOES-NOT-APPLY"; rm -rf $t; continue; fi
   al=""
   for p in $ALL; do
